@@ -12,6 +12,8 @@
 //   oidc    OIDC against a loopback discovery endpoint; admins = adminEmail
 //   neb     Nebula: tokens signed with the key of a Nebula host certificate issued by a local Nebula CA
 //   k8sSA-default  Kubernetes service account tokens signed with a local key
+//   jwkwh   JWK with an ENRICHING and an AUTHORIZING webhook served by the local server (answer per case)
+//   acme    ACME: no token; the harness does what acme.Order.Finalize does around the signer
 package main
 
 import (
@@ -33,6 +35,7 @@ import (
 	"errors"
 	"flag"
 	"fmt"
+	"io"
 	"math/big"
 	"net"
 	"net/http"
@@ -61,6 +64,10 @@ type ExtJ struct {
 
 type Case struct {
 	NebHost int    // nebula: which host certificate of nebHosts signs the token
+	RA      bool   // serve the request from the authority in RA mode (stepcas in front of the issuing CA)
+	WHE     string // jwkwh: answer of the enriching webhook: allow | deny   (with WHData as returned data)
+	WHA     string // jwkwh: answer of the authorizing webhook: allow | deny
+	WHData  int    // index into whDataPool
 	Auth    int    // index into authClaims: which authority (authority-level claims) serves the request
 	Prov    string // jwk | jwktpl | jwkdis | jwkc1..jwkc5 | x5c | oidc | nebula | k8ssa
 	Sub     string
@@ -126,7 +133,7 @@ var authClaims = []BC{
 
 // the provisioners' own claims
 var provClaims = map[string]BC{
-	"jwk": {}, "jwktpl": {}, "x5c": {}, "oidc": {}, "nebula": {}, "k8ssa": {},
+	"jwk": {}, "jwktpl": {}, "x5c": {}, "oidc": {}, "nebula": {}, "k8ssa": {}, "acme": {}, "jwkwh": {},
 	"jwkdis": {Ex: bp(true)},
 	"jwkc1":  {Ex: bp(false)},
 	"jwkc2":  {DR: bp(true)},
@@ -168,6 +175,18 @@ type env struct {
 	rsaSmall *rsa.PrivateKey
 	nebHosts []nebHost
 	k8sKey   *ecdsa.PrivateKey
+	// what the webhook server answers to the next requests (the harness is single-threaded)
+	whEnrich, whAuthz string
+	whData            int
+	ra                *raEnv
+}
+
+// data an enriching webhook may return: it is stored under .Webhooks.<name> of the template data
+var whDataPool = []string{
+	`{}`,
+	`{"sans":[{"type":"dns","value":"evil.example.com"}],"subject":{"commonName":"evil"}}`,
+	`{"extensions":[{"id":"1.3.6.1.4.1.37476.9000.64.1","critical":false,"value":"MAA="}],"SANs":["evil.example.com"]}`,
+	`{"Subject":{"commonName":"evil"},"Token":{"sub":"evil"},"Insecure":{"User":{"extensions":[]}}}`,
 }
 
 // a Nebula host certificate (signed by the Nebula CA registered with provisioner "neb") and its key
@@ -245,6 +264,22 @@ func newEnv() (*env, error) {
 			"authorization_endpoint": e.srv.URL + "/auth", "token_endpoint": e.srv.URL + "/token",
 		})
 	})
+	mux.HandleFunc("/wh/enrich", func(w http.ResponseWriter, r *http.Request) {
+		io.Copy(io.Discard, r.Body)
+		if e.whEnrich == "deny" {
+			w.Write([]byte(`{"allow":false}`))
+			return
+		}
+		w.Write([]byte(`{"allow":true,"data":` + whDataPool[e.whData%len(whDataPool)] + `}`))
+	})
+	mux.HandleFunc("/wh/authorize", func(w http.ResponseWriter, r *http.Request) {
+		io.Copy(io.Discard, r.Body)
+		if e.whAuthz == "deny" {
+			w.Write([]byte(`{"allow":false}`))
+			return
+		}
+		w.Write([]byte(`{"allow":true}`))
+	})
 	mux.HandleFunc("/keys", func(w http.ResponseWriter, _ *http.Request) {
 		pub := e.oidcKey.Public()
 		json.NewEncoder(w).Encode(jose.JSONWebKeySet{Keys: []jose.JSONWebKey{pub}})
@@ -271,6 +306,11 @@ func newEnv() (*env, error) {
 	for _, ac := range authClaims {
 		provs := provisioner.List{
 			&provisioner.Nebula{Type: "Nebula", Name: "neb", Roots: pemNeb},
+			&provisioner.ACME{Type: "ACME", Name: "acme"},
+			&provisioner.JWK{Type: "JWK", Name: "jwkwh", Key: &pub, Options: &provisioner.Options{Webhooks: []*provisioner.Webhook{
+				{ID: "wh-enrich", Name: "enrich", URL: e.srv.URL + "/wh/enrich", Kind: "ENRICHING", CertType: "X509", Secret: base64.StdEncoding.EncodeToString([]byte("secret"))},
+				{ID: "wh-authz", Name: "authz", URL: e.srv.URL + "/wh/authorize", Kind: "AUTHORIZING", CertType: "ALL", Secret: base64.StdEncoding.EncodeToString([]byte("secret"))},
+			}}},
 			&provisioner.K8sSA{Type: "K8sSA", Name: provisioner.K8sSAName, PubKeys: k8sPub},
 			&provisioner.JWK{Type: "JWK", Name: "jwktpl", Key: &pub,
 				Options: &provisioner.Options{X509: &provisioner.X509Options{Template: customTpl}}},
@@ -288,11 +328,24 @@ func newEnv() (*env, error) {
 		e.cas = append(e.cas, ca)
 	}
 	e.ca = e.cas[0]
+	raEnv, err := newRA(e, provisioner.List{
+		&provisioner.X5C{Type: "X5C", Name: "x5c", Roots: roots},
+		&provisioner.OIDC{Type: "OIDC", Name: "oidc", ClientID: oidcClient,
+			ConfigurationEndpoint: e.srv.URL + "/.well-known/openid-configuration", Admins: []string{adminEmail}},
+		&provisioner.Nebula{Type: "Nebula", Name: "neb", Roots: pemNeb},
+	})
+	if err != nil {
+		return nil, err
+	}
+	e.ra = raEnv
 	e.rsaSmall = must(rsa.GenerateKey(rand.Reader, 1024))
 	return e, nil
 }
 
 func (e *env) close() {
+	if e.ra != nil {
+		e.ra.close()
+	}
 	for _, ca := range e.cas {
 		ca.Close()
 	}
@@ -337,7 +390,7 @@ func (e *env) token(k *Case, csr *x509.CertificateRequest) (string, error) {
 		base["cnf"] = map[string]any{"x5rt#S256": "!!not base64!!"}
 	}
 	switch k.Prov {
-	case "jwk", "jwktpl", "jwkdis", "jwkc1", "jwkc2", "jwkc3", "jwkc4", "jwkc5":
+	case "jwk", "jwktpl", "jwkdis", "jwkc1", "jwkc2", "jwkc3", "jwkc4", "jwkc5", "jwkwh":
 		base["iss"] = k.Prov
 		base["aud"] = fixture.Audience("/1.0/sign")
 		return signJWT(e.ca.JWK.Key, e.ca.JWK.Algorithm, map[string]any{"kid": e.ca.JWK.KeyID}, base)
@@ -513,6 +566,37 @@ func (k *Case) userData() (raw string, present bool) {
 	return k.UD, k.UD != ""
 }
 
+// userExtensions says what the custom template will see in .Insecure.User.extensions for a raw
+// templateData: the extension list when it decodes as []x509util.Extension (json.Unmarshal, the decoder
+// the template output goes through), ok=false when it does not, alphabet=false when it names an OID the
+// harness does not track (such cases are skipped).
+func userExtensions(raw string) (exts []ExtJ, ok, alphabet bool) {
+	obj := map[string]interface{}{}
+	if json.Unmarshal([]byte(raw), &obj) != nil {
+		return nil, true, true // CustomTemplateOptions: SetUserData(empty map)
+	}
+	v, present := obj["extensions"]
+	if !present || v == nil {
+		return nil, true, true
+	}
+	b, err := json.Marshal(v)
+	if err != nil {
+		return nil, false, true
+	}
+	var l []x509util.Extension
+	if json.Unmarshal(b, &l) != nil {
+		return nil, false, true
+	}
+	for _, x := range l {
+		n, in := oidNum(asn1.ObjectIdentifier(x.ID))
+		if !in {
+			return nil, true, false
+		}
+		exts = append(exts, ExtJ{OID: n, Val: x.Value})
+	}
+	return exts, true, true
+}
+
 // ---------- one case ----------
 
 func statusOf(err error) int {
@@ -528,9 +612,12 @@ func (e *env) run(k *Case) (line, impl string, ok bool) {
 	if !ok {
 		return "", "", false
 	}
-	tok, err := e.token(k, csr)
-	if err != nil {
-		return "", "", false
+	tok := ""
+	if k.Prov != "acme" {
+		var err error
+		if tok, err = e.token(k, csr); err != nil {
+			return "", "", false
+		}
 	}
 	// ----- model input line
 	var genType provisioner.Type
@@ -542,8 +629,24 @@ func (e *env) run(k *Case) (line, impl string, ok bool) {
 	}
 	ca := e.cas[k.Auth]
 	ac, pc := authClaims[k.Auth], provClaims[k.Prov]
+	raField := ""
+	if k.RA {
+		// RA mode: one authority, leaf-template provisioners only
+		if k.Auth != 0 || (k.Prov != "jwk" && k.Prov != "x5c" && k.Prov != "oidc" && k.Prov != "nebula") {
+			return "", "", false
+		}
+		if k.Prov == "oidc" && k.Email != "" && sanitizeEmail(k.Email) == sanitizeEmail(adminEmail) {
+			return "", "", false
+		}
+		ca = e.ra.ra
+		rg, err := (&provisioner.Extension{Type: provisioner.TypeJWK, Name: "ra-jwk", CredentialID: e.ra.raKid}).ToExtension()
+		if err != nil {
+			return "", "", false
+		}
+		raField = " ra=1 rgen=" + c.XB(rg.Value)
+	}
 	switch k.Prov {
-	case "jwk", "jwktpl", "jwkdis", "jwkc1", "jwkc2", "jwkc3", "jwkc4", "jwkc5":
+	case "jwk", "jwktpl", "jwkdis", "jwkc1", "jwkc2", "jwkc3", "jwkc4", "jwkc5", "jwkwh":
 		genType = provisioner.TypeJWK
 	case "x5c":
 		genType, credID, mprov = provisioner.TypeX5C, "", "x5c"
@@ -556,6 +659,8 @@ func (e *env) run(k *Case) (line, impl string, ok bool) {
 	case "k8ssa":
 		genType, credID, mprov = provisioner.TypeK8sSA, "", "k8ssa"
 		provName = provisioner.K8sSAName
+	case "acme":
+		genType, credID, mprov = provisioner.TypeACME, "", "acme"
 	case "oidc":
 		genType, credID, mprov = provisioner.TypeOIDC, oidcClient, "oidc"
 		if k.Email != "" && sanitizeEmail(k.Email) == sanitizeEmail(adminEmail) {
@@ -572,7 +677,7 @@ func (e *env) run(k *Case) (line, impl string, ok bool) {
 	for i, s := range k.SANs {
 		sans[i] = san(s)
 	}
-	if k.NoSANs || k.Prov == "oidc" || k.Prov == "k8ssa" {
+	if (k.NoSANs && k.Prov != "acme") || k.Prov == "oidc" || k.Prov == "k8ssa" {
 		sans = nil
 	}
 	nbn, nbi := "-", "-"
@@ -588,6 +693,8 @@ func (e *env) run(k *Case) (line, impl string, ok bool) {
 			oiss = san(iss.String())
 			tokNames = append(tokNames, iss.String())
 		}
+	} else if k.Prov == "acme" {
+		tokNames = k.SANs
 	} else if k.Prov == "nebula" {
 		h := e.nebHosts[k.NebHost]
 		nbn, nbi = san(h.crt.Details.Name), xlist(h.ips)
@@ -602,7 +709,7 @@ func (e *env) run(k *Case) (line, impl string, ok bool) {
 		}
 	}
 	cnf := map[string]string{"": "-", "ok": "1", "bad": "0", "garbage": "!"}[k.Cnf]
-	if k.Prov == "oidc" || k.Prov == "k8ssa" {
+	if k.Prov == "oidc" || k.Prov == "k8ssa" || k.Prov == "acme" {
 		cnf = "-"
 	}
 	var cips, curis []string
@@ -613,12 +720,25 @@ func (e *env) run(k *Case) (line, impl string, ok bool) {
 		curis = append(curis, u.String())
 	}
 	keyok := k.Key != "rsa1024"
+	whe, wha := "-", "-"
+	if k.Prov == "jwkwh" {
+		whe, wha = c.B(k.WHE != "deny"), c.B(k.WHA != "deny")
+		e.whEnrich, e.whAuthz, e.whData = k.WHE, k.WHA, k.WHData
+	}
 	udRaw, udPresent := k.userData()
-	line = fmt.Sprintf("prov=%s tpl=%s adr=%s aex=%s aae=%s pdr=%s pex=%s pae=%s gen=%s sub=%s sans=%s cnf=%s oem=%s oiss=%s nbn=%s nbi=%s sig=%s ccn=%s cdns=%s cip=%s cem=%s curi=%s key=1 keyok=%s cext=%s ud=%s uext=%s uoth=%d enct=%s encc=%s case=x%s",
+	uexts, uok := k.UExt, true
+	if k.Prov == "jwktpl" && !k.HasUExt && udPresent {
+		var alphabet bool
+		if uexts, uok, alphabet = userExtensions(udRaw); !alphabet {
+			return "", "", false
+		}
+	}
+	line = fmt.Sprintf("prov=%s tpl=%s adr=%s aex=%s aae=%s pdr=%s pex=%s pae=%s gen=%s sub=%s sans=%s cnf=%s oem=%s oiss=%s nbn=%s nbi=%s sig=%s ccn=%s cdns=%s cip=%s cem=%s curi=%s key=1 keyok=%s cext=%s ud=%s uext=%s uoth=%d uok=%s enct=%s encc=%s whe=%s wha=%s%s case=x%s",
 		mprov, c.B(k.Prov == "jwktpl"), tri(ac.DR), tri(ac.Ex), tri(ac.AE), tri(pc.DR), tri(pc.Ex), tri(pc.AE), c.XB(gen.Value), san(k.Sub), c.List(sans), cnf, oem, oiss, nbn, nbi,
 		c.B(csr.CheckSignature() == nil), c.X(csr.Subject.CommonName), xlist(csr.DNSNames), xlist(cips), xlist(csr.EmailAddresses), xlist(curis),
-		c.B(keyok), extList(k.CExt), c.B(udPresent), extList(k.UExt), len(udRaw),
+		c.B(keyok), extList(k.CExt), c.B(udPresent), extList(uexts), len(udRaw), c.B(uok),
 		c.B(encodable(k.Sub, tokNames)), c.B(encodableCert(csr.Subject.CommonName, csr.DNSNames, csr.IPAddresses, csr.EmailAddresses, csr.URIs)),
+		whe, wha, raField,
 		hex.EncodeToString(must(json.Marshal(k))))
 
 	// ----- implementation
@@ -629,7 +749,30 @@ func (e *env) run(k *Case) (line, impl string, ok bool) {
 			}
 		}()
 		ctx := provisioner.NewContextWithMethod(authority.NewContext(context.Background(), ca.Auth), provisioner.SignMethod)
-		opts, err := ca.Auth.Authorize(ctx, tok)
+		var opts []provisioner.SignOption
+		var err error
+		if k.Prov == "acme" {
+			// what acme.Order.Finalize does around the signer: AuthorizeSign(ctx, ""), template data from
+			// the names the ACME layer validated (here: Sub / SANs), template options appended
+			p, perr := ca.Auth.LoadProvisionerByName("acme")
+			if perr != nil {
+				return "unauth:500"
+			}
+			if opts, err = p.AuthorizeSign(ctx, ""); err == nil {
+				data := x509util.CreateTemplateData(k.Sub, k.SANs)
+				for _, o := range opts {
+					if wc, ok := o.(*provisioner.WebhookController); ok {
+						wc.TemplateData = data
+					}
+				}
+				var to provisioner.CertificateOptions
+				if to, err = provisioner.TemplateOptions(p.(*provisioner.ACME).Options, data); err == nil {
+					opts = append(opts, to)
+				}
+			}
+		} else {
+			opts, err = ca.Auth.Authorize(ctx, tok)
+		}
 		if err != nil {
 			return fmt.Sprintf("unauth:%d", statusOf(err))
 		}
